@@ -197,6 +197,14 @@ def length_cases(tier):
             yield {"kind": "long", "lex": "line-length-%s" % kind, "k": L, "boundary": 1023}, first + "\nprint typeof(x);\nprint 7;\n"
 
 
+def include_ops(text, n):
+    """the same text reaching the scanner through the reader of the include statement"""
+    d = os.path.join(build.BUILD, "scratch", "c13-inc")
+    os.makedirs(d, exist_ok=True)
+    path = os.path.join(d, "i-%d-%d.bloc" % (os.getpid(), n % 32))
+    return ["mkfile %s %s" % (hx(path), hx(text)), op_ctx(4), op_run('include "%s";' % path, slot=4), op_out(4), "rmfile %s" % hx(path)]
+
+
 def long_gen(tier):
     def gen():
         n = 0
@@ -204,7 +212,7 @@ def long_gen(tier):
             lf, crlf = text, text.replace("\n", "\r\n")
             ops = [op_ctx(0), "tokens 0 %s s" % hx(lf), op_ctx(1), "tokens 1 %s s" % hx(crlf),
                    op_ctx(2), "parse 2 0 %s s" % hx(lf), "unparse 0", "exec 0", op_out(2),
-                   op_ctx(3), "parse 3 1 %s s" % hx(crlf), "unparse 1", "exec 1", op_out(3)]
+                   op_ctx(3), "parse 3 1 %s s" % hx(crlf), "unparse 1", "exec 1", op_out(3)] + include_ops(crlf, n)
             m = dict(meta)
             m["crlf"] = True
             m["text"] = crlf
@@ -215,7 +223,7 @@ def long_gen(tier):
                 ll = longline.replace("\n", "\r\n") if crlf else longline
                 ops = [op_ctx(0), "tokens 0 %s s" % hx(shortlines), op_ctx(1), "tokens 1 %s s" % hx(ll),
                        op_ctx(2), "parse 2 0 %s s" % hx(shortlines), "unparse 0", "exec 0", op_out(2),
-                       op_ctx(3), "parse 3 1 %s s" % hx(ll), "unparse 1", "exec 1", op_out(3)]
+                       op_ctx(3), "parse 3 1 %s s" % hx(ll), "unparse 1", "exec 1", op_out(3)] + include_ops(ll, n)
                 m = dict(meta)
                 m["crlf"] = crlf
                 m["text"] = ll
@@ -274,6 +282,9 @@ def check(case, res):
     if ref_p.get("r") == "ok":
         if ref_u.get("text") != var_u.get("text"):
             vs.append(Violation("program:%s" % cls, "compiled programs differ: %r vs %r; %s" % (unhex(ref_u.get("text", ""))[:200], unhex(var_u.get("text", ""))[:200], where), case))
+        elif long_ and len(st) >= 19 and (ref_x.get("r"), ref_o.get("out")) != (st[16].get("r"), st[17].get("out")):
+            vs.append(Violation("include:%s" % cls, "the text read through an include statement gives %s %r, directly %s %r; %s" % (
+                st[16], unhex(st[17].get("out", ""))[:120], ref_x.get("r"), unhex(ref_o.get("out", ""))[:120], where), case))
         elif (ref_x.get("r"), ref_o.get("out")) != (var_x.get("r"), var_o.get("out")):
             vs.append(Violation("output:%s" % cls, "outputs differ: %s %r vs %s %r; %s" % (ref_x.get("r"), unhex(ref_o.get("out", "")), var_x.get("r"), unhex(var_o.get("out", "")), where), case))
     return vs, True
